@@ -162,7 +162,33 @@ def close(a, b, scale):
   return abs(a - b) <= 1e-5 * max(abs(a), abs(b)) + 5e-6 * scale + 1e-30
 
 
-def check_values(rec, step, spec, result, mm, label):
+def blockwise_constants(spec, q):
+  """Constants consumed by an operator whose resolved weight config is BLOCKWISE. The statement
+  speaks of per-tensor or per-channel statistics; block-wise ones (reachable only through
+  skip_checks or FULLY_CONNECTED sub-channel configs) are neither, so they are not judged."""
+  from ai_edge_quantizer import qtyping
+  out = set()
+  try:
+    rm = harness.recipe_manager_of(q)
+  except Exception:  # pylint: disable=broad-except
+    return out
+  for o in spec.ops:
+    qn = modelgen.QNAME.get(o['type'])
+    if not qn:
+      continue
+    names = [spec.tensors[i]['name'] for i in o['outputs']]
+    for scope in (''.join(names), ''.join(n + ';' for n in names)):
+      try:
+        _, cfg = rm.get_quantization_configs(qtyping.TFLOperationName(qn), scope)
+      except Exception:  # pylint: disable=broad-except
+        continue
+      w = cfg.weight_tensor_config
+      if w is not None and getattr(w.granularity, 'value', w.granularity) == 'BLOCKWISE':
+        out.update(spec.tensors[i]['name'] for i in o['inputs'] if i >= 0 and spec.tensors[i]['data'] is not None)
+  return out
+
+
+def check_values(rec, step, spec, result, mm, label, skip_constants=()):
   """Oracles 3 and 4 on a calibration result."""
   names = {t['name']: t for t in spec.tensors}
   for key in sorted(result):
@@ -178,6 +204,9 @@ def check_values(rec, step, spec, result, mm, label):
     mn = np.asarray(qsv['min'], dtype=np.float64).reshape(-1)
     mx = np.asarray(qsv['max'], dtype=np.float64).reshape(-1)
     if names[key]['data'] is not None:
+      if key in skip_constants:
+        rec.probe('blockwise_constant_not_judged')
+        continue
       cands = constant_candidates(spec, key)
       ok = False
       for cmn, cmx in cands:
@@ -368,7 +397,7 @@ def execute(doc):
     rec.probe('nonfinite_skipped')
     rec.event(step, 'oracle', 'nonfinite-skipped')
   else:
-    ok = check_values(rec, step, spec, durable, mm, 'final result')
+    ok = check_values(rec, step, spec, durable, mm, 'final result', blockwise_constants(spec, qs[0]))
     rec.event(step, 'oracle', 'ok' if ok else 'ema-mismatch', len(durable))
   return rec.result()
 
